@@ -364,11 +364,23 @@ func c08SmallEdits(c *Ctx, r *lib.Rng, n int) error {
 		}
 		nOlds := cr.Range(1, 3)
 		in := &c11Input{bs: bs}
+		lowEntropy := cr.Chance(1, 4) // 3 letters: equal pushed/popped bytes, equal consecutive weak hashes, repeated blocks
 		for k := 0; k < nOlds; k++ {
 			sz := []int{0, 1, bs - 1, bs, bs + 1, 3 * bs, 5*bs + 3, cr.Range(0, 12*bs)}[cr.Intn(8)]
-			in.olds = append(in.olds, cr.Bytes(sz))
+			if lowEntropy {
+				in.olds = append(in.olds, c11RandString(cr, 3, sz))
+			} else {
+				in.olds = append(in.olds, cr.Bytes(sz))
+			}
 		}
 		f := cr.Intn(nOlds)
+		if cr.Chance(1, 3) {
+			// the old build holds the same content twice (a duplicated file): the copy comes first in
+			// the signature, so only the preferred-file rule maps the new file to "its" old file
+			in.olds = append([][]byte{append([]byte{}, in.olds[f]...)}, in.olds...)
+			nOlds++
+			f++
+		}
 		k := []int{0, 0, 1, 1, 2, 3, 4}[cr.Intn(7)]
 		src, intro := in.olds[f], 0
 		var hows []string
@@ -397,7 +409,7 @@ func c08SmallEdits(c *Ctx, r *lib.Rng, n int) error {
 		if oracle == "" && k == 0 && fresh != 0 {
 			oracle = fmt.Sprintf("the source equals old file %d but the operations carry %d data bytes", f, fresh)
 		}
-		if oracle == "" && fresh > intro+(2*k+2)*bs {
+		if oracle == "" && !lowEntropy && fresh > intro+(2*k+2)*bs {
 			// the bound presupposes that no two consecutive windows of the source share their weak
 			// hash (the differ skips the lookup then) and that the old blocks are pairwise distinct
 			hyp := true
@@ -410,7 +422,11 @@ func c08SmallEdits(c *Ctx, r *lib.Rng, n int) error {
 				oracle = fmt.Sprintf("%d data bytes exceed introduced %d + (2*%d+2)*%d (edits %s)", fresh, intro, k, bs, strings.Join(hows, ","))
 			}
 		}
-		cs := c11SmallCase(in, ops, oracle, fmt.Sprintf("smalledit/k%d", k))
+		cls := "smalledit"
+		if lowEntropy {
+			cls = "smalledit-3letters"
+		}
+		cs := c11SmallCase(in, ops, oracle, fmt.Sprintf("%s/k%d", cls, k))
 		cs.Nontrivial = k > 0 && fresh < len(src)
 		c.Out.Emit(cs)
 	}
@@ -515,14 +531,21 @@ func c08Acct(c *Ctx, r *lib.Rng, n int) error {
 }
 
 func runC08(c *Ctx) error {
-	if err := c08Edits(c, c.Rng.Fork(), c.N(40, 500)); err != nil {
+	// the search tier (after a correspondence break) runs three times the quick sizes with another seed
+	n := func(quick, thorough int) int {
+		if c.Tier == "search" {
+			return 3 * quick
+		}
+		return c.N(quick, thorough)
+	}
+	if err := c08Edits(c, c.Rng.Fork(), n(40, 500)); err != nil {
 		return err
 	}
-	if err := c08Pairs(c, c.Rng.Fork(), c.N(24, 300)); err != nil {
+	if err := c08Pairs(c, c.Rng.Fork(), n(24, 300)); err != nil {
 		return err
 	}
-	if err := c08SmallEdits(c, c.Rng.Fork(), c.N(500, 6000)); err != nil {
+	if err := c08SmallEdits(c, c.Rng.Fork(), n(500, 6000)); err != nil {
 		return err
 	}
-	return c08Acct(c, c.Rng.Fork(), c.N(400, 4000))
+	return c08Acct(c, c.Rng.Fork(), n(400, 4000))
 }
